@@ -287,3 +287,28 @@ func verifCheckScalar(it *Iter, nd *verifNode) {
 		verifAssert(it.Type() == TypeNull, "null has TypeNull")
 	}
 }
+
+// verifGenDocs builds a tape with two roots (as ParseND produces for two lines) of exactly T1 and T2 words.
+func verifGenDocs(cfg verifGenCfg, T1, T2 int) (*ParsedJson, []*verifNode) {
+	g := &verifGen{cfg: cfg}
+	if !cfg.inMsg {
+		g.msg = nondetBytes("stale.message", 2)
+	}
+	var roots []*verifNode
+	for _, T := range []int{T1, T2} {
+		start := len(g.tape)
+		g.emit(uint64('r')<<56 | uint64(start+T))
+		var opts []verifOpt
+		if cfg.arrays {
+			opts = append(opts, verifOpt{verifOptArr, T - 2})
+		}
+		if cfg.objects {
+			opts = append(opts, verifOpt{verifOptObj, T - 2})
+		}
+		o := opts[verifChoice("root", len(opts))]
+		roots = append(roots, g.value(o, 0))
+		g.emit(uint64('r')<<56 | uint64(start))
+	}
+	pj := &ParsedJson{Tape: g.tape, Strings: &TStrings{B: g.sb}, Message: g.msg}
+	return pj, roots
+}
